@@ -10,14 +10,16 @@ from .lib.reachrule import ReachRule
 CONFIGS_QUICK = ["A", "R"]
 CONFIGS_THOROUGH = ["A", "R", "ASYNCSTD", "SMOL", "NIO", "GLOMMIO", "NOAPI"]
 TECHNIQUE = "MIR call-graph reachability of panic/unsafe sinks from the request parser and accessors + guard audit; header/method literal tables; def-use of the read count"
-LEVEL_TEXT = ('Decides clauses C02-a..f: no panic sink and no unguarded unsafe operation is reachable from Request::read/read_payload (request line, headers, '
-              "Content-Length, body) or from the public request accessors (Path, Headers, Cookies) -- the accessors' UTF-8 expectations count as discharged only if "
-              'Request::read validates the same bytes before storing them; the request header table is case-consistent and recognised case-insensitively (and answers'
-              ' `custom header` only after every case-insensitive name comparison failed), Method::from_bytes/as_str are inverse; the byte count returned by the '
-              'first read bounds what is parsed; `Headers::get(name)` answers None only after the standard header table was consulted for the name; no integer '
-              'FromStr (`str::parse`, which accepts a leading `+`) is applied to wire text in Request::read; the value of a query pair yielded by QueryParams::iter '
-              "runs from after the pair's first `=` to the end of the pair (not one item of a split at every `=`, no other upper bound). Decides these clauses, not "
-              'the faithfulness of every parsed field for all byte strings.')
+LEVEL_TEXT = ('Decides clauses C02-a..f: no panic sink and no unguarded unsafe operation is reachable from Request::read/read_payload (request line, headers, Content'
+              "-Length, body) or from the public request accessors (Path, Headers, Cookies) -- the accessors' UTF-8 expectations count as discharged only if Request:"
+              ':read validates the same bytes before storing them; the request header table is case-consistent and recognised case-insensitively (and answers `custom'
+              ' header` only after every case-insensitive name comparison failed), Method::from_bytes/as_str are inverse; the byte count returned by the first read b'
+              'ounds what is parsed; `Headers::get(name)` answers None only after the standard header table was consulted for the name; no integer FromStr (`str::par'
+              'se`, which accepts a leading `+`) is applied to wire text in Request::read; the value of a query pair yielded by QueryParams::iter runs from after the'
+              " pair's first `=` to the end of the pair (not one item of a split at every `=`, no other upper bound). The integer-FromStr clause ranges over everythi"
+              'ng Request::read can reach in the crate (local helpers included); the head parser is given a prefix of the buffer bounded by the received count, never'
+              ' the whole buffer; the fallback closure of Headers::get consults the table before every answer it gives. Decides these clauses, not the faithfulness o'
+              'f every parsed field for all byte strings.')
 
 STOP = [r"^ohkami::response::", r"<impl ohkami::response::Response>", r"<ohkami::response::Response as "]
 
@@ -277,7 +279,12 @@ def c02e(ck, prog):
             if st and st[-1][0] == "agg" and st[-1][1][1].get("k") == "closure":
                 g = prog.fns.get(st[-1][1][1]["def"])
                 if g is not None and g.calls_to(r"request::headers::Header::from_bytes$"):
-                    consult.add(c.bb)
+                    # ... on every path of the closure: each of its answers is preceded by the table look-up, or is the
+                    # look-up's own `?` (no early `return None` on, say, a long name in front of it)
+                    fb = g.calls_to(r"request::headers::Header::from_bytes$")
+                    early = [rb for rb, rk, rp in paths.ret_sites(g) if not any(g.dominates(x.bb, rb) for x in fb)]
+                    if not early:
+                        consult.add(c.bb)
     if not consult:
         raise AnchorLost("Headers::get never consults Header::from_bytes")
     n = 0
